@@ -6,12 +6,12 @@
 // Replay of one iteration: `vh api-fuzz iter=<n>` (same VERIF_SEED / VERIF_TIER);
 // `n=<count>` overrides the number of iterations, `src=<dir>` the source root
 // whose testdata/ directory is used as an additional corpus (default /repo);
-// `selftest=hang` / `selftest=panic` plant a hanging / panicking call into
-// iteration 3 to check the deadline and recover plumbing of the command itself.
+// `selftest=hang` / `selftest=panic` / `selftest=overflow` plant a hanging /
+// panicking / stack-overflowing call into iteration 3 to check the deadline,
+// recover and child-process plumbing of the command itself.
 //
-// A Go stack overflow cannot be recovered: should the process die with
-// "fatal error: stack overflow", the iteration number is the first argument of
-// apifuzz.runIter in the traceback.
+// Iterations run in child processes (see run.go), so a fatal runtime error
+// (stack overflow) is attributed to its iteration and reported as a diff.
 package apifuzz
 
 import (
@@ -28,7 +28,6 @@ import (
 	"strconv"
 	"strings"
 	"sync"
-	"sync/atomic"
 	"time"
 
 	jlib "github.com/jsightapi/jsight-schema-go-library"
@@ -49,15 +48,18 @@ const (
 	fixedKType   = `"kk" // {regex: "k+"}`
 )
 
-type namedSrc struct{ name, text string }
+// namedSrc: a named source; file is the name of its fs.File (by default the type / rule name itself).
+type namedSrc struct{ name, text, file string }
 
 // inputs is everything one iteration feeds to the library.
 type inputs struct {
 	it        int64
 	stream    string
 	root      string
+	rootFile  string     // file name of the root schema ("" is what most callers pass)
 	types     []namedSrc // added user types
 	enumName  string
+	enumFile  string
 	enum      string
 	regex     string
 	doc       string
@@ -69,19 +71,24 @@ type inputs struct {
 	nested    bool  // the first added type gets the other types added to itself first
 	dupType   bool  // the first type is added twice
 	order     []int // order of the root schema's methods
+
+	useExample bool // the document is the schema's own example (doc holds a placeholder until then)
 }
 
-func (in *inputs) dump() string {
+// key is the canonical text of the case (without the iteration number).
+func (in *inputs) key() string {
 	var sb strings.Builder
-	fmt.Fprintf(&sb, "it=%d stream=%s root=%q", in.it, in.stream, in.root)
+	fmt.Fprintf(&sb, "stream=%s root[file %q]=%q", in.stream, in.rootFile, in.root)
 	for _, t := range in.types {
-		fmt.Fprintf(&sb, " type %s=%q", t.name, t.text)
+		fmt.Fprintf(&sb, " type %s[file %q]=%q", t.name, t.file, t.text)
 	}
-	fmt.Fprintf(&sb, " enum %s=%q regex=%q doc=%q", in.enumName, in.enum, in.regex, in.doc)
+	fmt.Fprintf(&sb, " enum %s[file %q]=%q regex=%q doc=%q", in.enumName, in.enumFile, in.enum, in.regex, in.doc)
 	fmt.Fprintf(&sb, " opts[keysOpt=%v fromFile=%v trailing=%v regexType=%v misuse=%v nested=%v dupType=%v order=%v]",
 		in.keysOpt, in.fromFile, in.trailing, in.regexType, in.misuse, in.nested, in.dupType, in.order)
 	return sb.String()
 }
+
+func (in *inputs) dump() string { return fmt.Sprintf("it=%d ", in.it) + in.key() }
 
 // ---- corpus ----
 
@@ -124,9 +131,9 @@ func loadCorpus(src string, maxLen int) []corpusSet {
 		case ".json":
 			cs.docs = append(cs.docs, string(b))
 		case ".type":
-			cs.types = append(cs.types, namedSrc{name, string(b)})
+			cs.types = append(cs.types, namedSrc{name: name, text: string(b)})
 		case ".enum":
-			cs.enums = append(cs.enums, namedSrc{name, string(b)})
+			cs.enums = append(cs.enums, namedSrc{name: name, text: string(b)})
 		}
 		return nil
 	})
@@ -190,12 +197,14 @@ func buildTruncCases(corpus []corpusSet, generated []string) []truncCase {
 // ---- input construction ----
 
 type config struct {
-	seed     int64
-	maxLen   int // upper bound for every single input
-	corpus   []corpusSet
-	trunc    []truncCase
-	truncAll bool   // iterations 0..len(trunc)-1 enumerate the truncation cases
-	selftest string // "hang" / "panic": iteration 3 makes a call that never returns / panics (checks the harness itself)
+	seed      int64
+	maxLen    int // upper bound for every single input
+	corpus    []corpusSet
+	trunc     []truncCase
+	generated []string // schemas generated once per run (truncation corpus)
+	truncAll  bool     // iterations 0..len(trunc)-1 enumerate the truncation cases
+	trace     bool     // children replaying one iteration print the method names
+	selftest  string   // "hang" / "panic": iteration 3 makes a call that never returns / panics (checks the harness itself)
 }
 
 func splitmix(x uint64) uint64 {
@@ -210,7 +219,7 @@ func iterRand(seed, it int64) *rand.Rand {
 }
 
 func defaultTypes() []namedSrc {
-	return []namedSrc{{"@a", `1`}, {"@b", `"s"`}, {"@o", `{"o": 1}`}}
+	return []namedSrc{{name: "@a", text: `1`}, {name: "@b", text: `"s"`}, {name: "@o", text: `{"o": 1}`}}
 }
 
 func (cfg *config) fromCorpus(r *rand.Rand, set int) inputs {
@@ -295,15 +304,15 @@ func (cfg *config) makeInputs(it int64) (inputs, *rand.Rand) {
 	case "seed-mut":
 		in = inputs{root: pickMut(rootSeeds), enumName: "@e", enum: pickMut(enumSeeds), regex: pickMut(regexSeeds), doc: pickMut(docSeeds)}
 		for _, n := range []string{"@a", "@b", "@o"}[:r.Intn(4)] {
-			in.types = append(in.types, namedSrc{n, pickMut(typeSeeds)})
+			in.types = append(in.types, namedSrc{name: n, text: pickMut(typeSeeds)})
 		}
 	case "grammar":
 		in = inputs{root: genSchema(r, 40), enumName: "@e", enum: genEnum(r), regex: genRegex(r)}
 		for _, n := range []string{"@a", "@b", "@o"}[:r.Intn(4)] {
 			if r.Intn(4) == 0 {
-				in.types = append(in.types, namedSrc{n, pickMut(typeSeeds)})
+				in.types = append(in.types, namedSrc{name: n, text: pickMut(typeSeeds)})
 			} else {
-				in.types = append(in.types, namedSrc{n, genSchema(r, 12)})
+				in.types = append(in.types, namedSrc{name: n, text: genSchema(r, 12)})
 			}
 		}
 		switch r.Intn(3) {
@@ -371,7 +380,66 @@ func (cfg *config) makeInputs(it int64) (inputs, *rand.Rand) {
 	if r.Intn(2) == 0 { // the natural order half of the time
 		sort.Ints(in.order)
 	}
+	in.chooseFileNames(r)
+	if in.doc == "\x00example" {
+		in.useExample, in.doc = true, "1"
+	}
 	return in, r
+}
+
+// reserved file names of the fixed sources of an iteration
+var reservedFiles = map[string]bool{"doc": true, "ex": true, "rg": true, "@rg": true, "@k": true, "@late": true}
+
+// chooseFileNames gives every source its own file name; the empty name (the usual argument of
+// jschema.New in client code) is given to at most one source so that an error's file stays identifiable.
+func (in *inputs) chooseFileNames(r *rand.Rand) {
+	used := map[string]bool{}
+	for k := range reservedFiles {
+		used[k] = true
+	}
+	take := func(candidates ...string) string {
+		for _, c := range candidates {
+			if !used[c] {
+				used[c] = true
+				return c
+			}
+		}
+		panic("no free file name")
+	}
+	switch r.Intn(8) {
+	case 0, 1, 2:
+		in.rootFile = take("root")
+	case 3, 4:
+		in.rootFile = take("")
+	case 5:
+		in.rootFile = take("root.jschema")
+	case 6:
+		in.rootFile = take("dir/sub/r.jschema")
+	default:
+		in.rootFile = take("é schema", "root")
+	}
+	for i := range in.types {
+		t := &in.types[i]
+		uniq := fmt.Sprintf("%s#%d", t.name, i)
+		switch r.Intn(8) {
+		case 0:
+			t.file = take("", t.name, uniq)
+		case 1:
+			t.file = take(t.name+".type", uniq)
+		case 2:
+			t.file = take("types/"+strings.TrimPrefix(t.name, "@")+".jschema", uniq)
+		default:
+			t.file = take(t.name, uniq)
+		}
+	}
+	switch r.Intn(6) {
+	case 0:
+		in.enumFile = take("", in.enumName, "enum#")
+	case 1:
+		in.enumFile = take(strings.TrimPrefix(in.enumName, "@")+".enum", "enum#")
+	default:
+		in.enumFile = take(in.enumName, "enum#")
+	}
 }
 
 // mutSlot applies n byte edits to one randomly chosen input.
@@ -405,6 +473,7 @@ type worker struct {
 }
 
 type result struct {
+	key   string
 	in    inputs
 	diffs []vh.Diff
 	stats []string
@@ -419,6 +488,8 @@ type ictx struct {
 	res  *result
 	src  map[string]int // file name -> length of the source (-1: synthesised text, unknown)
 	root *fs.File
+
+	trace bool // print "M <method>" before every call (child process replaying one iteration)
 }
 
 func (c *ictx) stat(s string) { c.res.stats = append(c.res.stats, s) }
@@ -499,6 +570,9 @@ func panicSite() string {
 
 // call runs one library call under recover and the deadline bookkeeping, then checks its error.
 func (c *ictx) call(method string, f func() error) (err error, ok bool) {
+	if c.trace {
+		os.Stdout.WriteString("M " + method + "\n")
+	}
 	c.w.mu.Lock()
 	c.w.active, c.w.method, c.w.start = true, method, time.Now()
 	c.w.mu.Unlock()
@@ -691,33 +765,37 @@ func newDoc(in *inputs, name, text string) jlib.Document {
 func runIter(it int64, cfg *config, w *worker) *result {
 	in, r := cfg.makeInputs(it)
 	res := &result{}
-	c := &ictx{w: w, in: &in, res: res, src: map[string]int{}}
+	c := &ictx{w: w, in: &in, res: res, src: map[string]int{}, trace: cfg.trace}
 	// sources by file name
-	c.src["root"] = len(in.root)
-	c.src[in.enumName] = len(in.enum)
+	c.src[in.rootFile] = len(in.root)
+	c.src[in.enumFile] = len(in.enum)
 	c.src["rg"] = len(in.regex)
 	c.src["@rg"] = -1
 	c.src["@k"] = len(fixedKType)
 	for _, t := range in.types {
-		c.src[t.name] = len(t.text)
+		c.src[t.file] = len(t.text)
 	}
-	c.root = fs.NewFile("root", in.root)
-	useExample := in.doc == "\x00example"
-	if useExample {
-		in.doc = "1"
-	}
+	c.root = fs.NewFile(in.rootFile, in.root)
+	useExample := in.useExample
 	c.src["doc"] = len(in.doc)
 	c.dump = in.dump()
 	w.mu.Lock()
 	w.input = c.dump
 	w.mu.Unlock()
+	res.key = in.key()
 
 	c.stat("stream:" + in.stream)
 	c.stat("rootlen:" + bucket(len(in.root)))
+	c.stat(fmt.Sprintf("rootfile:%q", in.rootFile))
 	c.stat(fmt.Sprintf("ntypes:%d", len(in.types)))
 
 	if it == 3 && cfg.selftest == "hang" {
 		c.call("selftest.hang", func() error { select {} })
+	}
+	if it == 3 && cfg.selftest == "overflow" {
+		var rec func(n int) int
+		rec = func(n int) int { return rec(n+1) + 1 }
+		c.call("selftest.overflow", func() error { rec(0); return nil })
 	}
 	if it == 3 && cfg.selftest == "panic" {
 		c.call("selftest.panic", func() error { var m map[string]int; m["x"] = 1; return nil })
@@ -726,9 +804,9 @@ func runIter(it int64, cfg *config, w *worker) *result {
 	// ---- enum rule ----
 	var e *enum.Enum
 	if in.fromFile {
-		e = enum.FromFile(fs.NewFile(in.enumName, []byte(in.enum)))
+		e = enum.FromFile(fs.NewFile(in.enumFile, []byte(in.enum)))
 	} else {
-		e = enum.New(in.enumName, in.enum)
+		e = enum.New(in.enumFile, in.enum)
 	}
 	enumCalls := []func(){
 		func() { c.call("enum.Check", func() error { return e.Check() }) },
@@ -767,7 +845,7 @@ func runIter(it int64, cfg *config, w *worker) *result {
 
 	// ---- user types on their own ----
 	for _, t := range in.types {
-		ts := newSchema(&in, t.name, t.text)
+		ts := newSchema(&in, t.file, t.text)
 		c.call("type.Len", func() error { _, err := ts.Len(); return err })
 		c.call("type.UsedUserTypes", func() error { _, err := ts.UsedUserTypes(); return err })
 		if r.Intn(2) == 0 {
@@ -778,23 +856,23 @@ func runIter(it int64, cfg *config, w *worker) *result {
 	}
 
 	// ---- root schema ----
-	s := newSchema(&in, "root", in.root)
+	s := newSchema(&in, in.rootFile, in.root)
 	if r.Intn(2) == 0 {
 		c.call("schema.Len", func() error { _, err := s.Len(); return err })
 	}
 	c.call("schema.AddRule", func() error { return s.AddRule(in.enumName, e) })
 	for i, t := range in.types {
-		ts := newSchema(&in, t.name, t.text)
+		ts := newSchema(&in, t.file, t.text)
 		if in.nested && i == 0 {
 			c.call("type.AddRule", func() error { return ts.AddRule(in.enumName, e) })
 			for _, u := range in.types[1:] {
-				us := newSchema(&in, u.name, u.text)
+				us := newSchema(&in, u.file, u.text)
 				c.call("type.AddType", func() error { return ts.AddType(u.name, us) })
 			}
 		}
 		c.call("schema.AddType", func() error { return s.AddType(t.name, ts) })
 		if in.dupType && i == 0 {
-			c.call("schema.AddType(dup)", func() error { return s.AddType(t.name, newSchema(&in, t.name, t.text)) })
+			c.call("schema.AddType(dup)", func() error { return s.AddType(t.name, newSchema(&in, t.file, t.text)) })
 		}
 	}
 	c.call("schema.AddType", func() error { return s.AddType("@k", jschema.New("@k", fixedKType)) })
@@ -854,7 +932,7 @@ func runIter(it int64, cfg *config, w *worker) *result {
 		c.call("schema.Validate(nil)", func() error { return s.Validate(nil) })
 		c.call("schema.Validate(again)", func() error { return s.Validate(newDoc(&in, "doc", in.doc)) })
 		c.call("schema.Check(again)", func() error { return s.Check() })
-		fresh := newSchema(&in, "root", in.root)
+		fresh := newSchema(&in, in.rootFile, in.root)
 		c.call("schema.AddRule(nil)", func() error { return fresh.AddRule("@nil", nil) })
 		c.call("schema.Validate(first)", func() error { return fresh.Validate(newDoc(&in, "doc", in.doc)) })
 	}
@@ -901,180 +979,4 @@ func bucket(n int) string {
 		return "256-1023"
 	}
 	return "1024+"
-}
-
-// ---- the command ----
-
-func Run(args []string) {
-	thorough := vh.Tier() == "thorough"
-	cfg := &config{seed: vh.Seed(), maxLen: vh.Pick(600, 4096), truncAll: thorough}
-	n := int64(vh.Pick(40000, 1200000))
-	src := "/repo"
-	replay := int64(-1)
-	show, shown := "", 0
-	// diffs are handed to the report at the end, unclassified ones first (the report keeps the first 25 only)
-	var unclassified, classified []vh.Diff
-	classCount := map[string]int{}
-	for _, a := range args {
-		switch {
-		case strings.HasPrefix(a, "iter="):
-			replay, _ = strconv.ParseInt(a[5:], 10, 64)
-		case strings.HasPrefix(a, "n="):
-			n, _ = strconv.ParseInt(a[2:], 10, 64)
-		case strings.HasPrefix(a, "src="):
-			src = a[4:]
-		case strings.HasPrefix(a, "selftest="):
-			cfg.selftest = a[9:]
-		case strings.HasPrefix(a, "show="): // log up to 5 diffs whose Impl contains the text
-			show = a[5:]
-		}
-	}
-	budget := time.Duration(vh.Pick(25, 540)) * time.Second
-
-	cfg.corpus = loadCorpus(src, cfg.maxLen)
-	gr := rand.New(rand.NewSource(cfg.seed*7919 + 5))
-	var generated []string
-	for i := 0; i < vh.Pick(40, 400); i++ {
-		generated = append(generated, genSchema(gr, 25))
-	}
-	cfg.trunc = buildTruncCases(cfg.corpus, generated)
-	if cfg.truncAll && n < int64(len(cfg.trunc)) {
-		n = int64(len(cfg.trunc))
-	}
-
-	rep := vh.NewReport("api-fuzz", fmt.Sprintf("root schema, 0-3 added user types (+ fixed @k, optionally the regex type as @rg), enum rule, regex type, JSON document; streams: byte-level mutation of %d embedded seeds (1-3 edits: truncate/insert/delete/replace over a %d-byte alphabet), grammar-aware generated schemas (rules, annotations, comments, shortcuts, key shortcuts; schema's own example as document), truncation at every offset of the seeds/%d generated schemas/%d corpus sets of %s/testdata (%d cases; all of them in the thorough tier), corpus sets with mutations, large inputs up to %d bytes; every public method of jschema.Schema, regex.Schema, enum.Enum, json.Document + kit.ConvertError under recover and a %v deadline; per-iteration PRNG from (VERIF_SEED, iteration)", len(rootSeeds)+len(typeSeeds)+len(enumSeeds)+len(regexSeeds)+len(docSeeds), len(alphabet), len(generated), len(cfg.corpus), src, len(cfg.trunc), cfg.maxLen, callDeadline))
-	rep.Extra["corpus_sets"] = strconv.Itoa(len(cfg.corpus))
-	rep.Extra["trunc_cases"] = strconv.Itoa(len(cfg.trunc))
-	if len(cfg.corpus) == 0 {
-		fmt.Println("api-fuzz: WARNING no corpus found under", filepath.Join(src, "testdata"))
-	}
-
-	if replay >= 0 {
-		w := &worker{}
-		res := runIter(replay, cfg, w)
-		fmt.Println("INPUT", w.input)
-		sort.Strings(res.stats)
-		fmt.Println("STATS", strings.Join(res.stats, " "))
-		for _, d := range res.diffs {
-			fmt.Printf("DIFF class=%q method/input=%s\n  impl=%s\n  model=%s\n", d.Class, d.Input, d.Impl, d.Model)
-			rep.AddDiff(d)
-		}
-		rep.Case(w.input, true)
-		rep.Finish()
-		return
-	}
-
-	const nworkers = 16
-	var (
-		next    int64 = -1
-		stop    atomic.Bool
-		mu      sync.Mutex // guards rep
-		closed  bool
-		wg      sync.WaitGroup
-		calls   int64
-		errs    int64
-		started = time.Now()
-	)
-	workers := make([]*worker, nworkers)
-	merge := func(res *result, dump string) {
-		mu.Lock()
-		defer mu.Unlock()
-		if closed {
-			return
-		}
-		rep.Case(dump, res.errs > 0)
-		for _, s := range res.stats {
-			rep.Stat(s)
-		}
-		for _, d := range res.diffs {
-			if d.Class == "" {
-				unclassified = append(unclassified, d)
-			} else {
-				classCount[d.Class]++
-				if classCount[d.Class] <= 6 {
-					classified = append(classified, d)
-				}
-			}
-			if show != "" && shown < 5 && strings.Contains(d.Impl, show) {
-				shown++
-				fmt.Printf("SHOW %s\n  impl=%s\n", d.Input, d.Impl)
-			}
-		}
-		calls += int64(res.calls)
-		errs += int64(res.errs)
-	}
-	for i := range workers {
-		w := &worker{}
-		workers[i] = w
-		wg.Add(1)
-		go func() {
-			defer wg.Done()
-			for !stop.Load() {
-				it := atomic.AddInt64(&next, 1)
-				if it >= n {
-					return
-				}
-				if it%256 == 0 && time.Since(started) > budget {
-					stop.Store(true)
-					mu.Lock()
-					rep.Extra["stopped_by_time_budget_at_iteration"] = strconv.FormatInt(it, 10)
-					mu.Unlock()
-					return
-				}
-				res := runIter(it, cfg, w)
-				w.mu.Lock()
-				dump := w.input
-				w.mu.Unlock()
-				merge(res, dump)
-			}
-		}()
-	}
-	done := make(chan struct{})
-	go func() { wg.Wait(); close(done) }()
-	tick := time.NewTicker(50 * time.Millisecond)
-	defer tick.Stop()
-loop:
-	for {
-		select {
-		case <-done:
-			break loop
-		case <-tick.C:
-			for _, w := range workers {
-				w.mu.Lock()
-				hung := w.active && time.Since(w.start) > callDeadline
-				input, method := w.input, w.method
-				w.mu.Unlock()
-				if hung {
-					// the goroutine cannot be killed: stop the run and report
-					stop.Store(true)
-					time.Sleep(200 * time.Millisecond)
-					mu.Lock()
-					closed = true
-					unclassified = append([]vh.Diff{{Component: component, Input: input + " method=" + method, Impl: "TIMEOUT", Model: fmt.Sprintf("the call returns within %v", callDeadline)}}, unclassified...)
-					rep.Extra["aborted"] = "timeout; run stopped"
-					mu.Unlock()
-					break loop
-				}
-			}
-		}
-	}
-	mu.Lock()
-	closed = true
-	for _, d := range unclassified {
-		rep.AddDiff(d)
-	}
-	for _, d := range classified {
-		rep.AddDiff(d)
-	}
-	for cls, n := range classCount {
-		rep.Stats["diffs_class:"+cls] = n
-		for i := 6; i < n; i++ { // counted, not stored
-			rep.AddDiff(vh.Diff{Component: component, Class: cls, Impl: "(further diffs of this class)"})
-		}
-	}
-	rep.Stats["diffs_unclassified"] = len(unclassified)
-	rep.Stats["calls_total"] = int(calls)
-	rep.Stats["errors_checked_total"] = int(errs)
-	rep.Finish()
-	mu.Unlock()
 }
